@@ -30,6 +30,9 @@ type JAttrObs struct {
 	O      *JObs  `json:"o,omitempty"`   // structurally decoded observation (NOT validated)
 	UIDs   []string `json:"uids,omitempty"` // CheckResult.UniqueID() of each performable, computed by the real code
 	Raw    string `json:"raw"`           // hex of the bytes handed to the plugin
+	// length of the message in bytes. libocr refuses a message longer than the MaxObservationLength the plugin
+	// advertises; such an observation is part of the case but is never handed to the plugin (runOutcome plays libocr)
+	Len    int    `json:"len,omitempty"`
 }
 
 type JWg struct {
@@ -130,7 +133,7 @@ func (a *auxBuilder) outcome(o ocr2keepersv3.AutomationOutcome) {
 
 // attrObs turns raw observation bytes into the case form, decoding with the same JSON library the plugin uses.
 func attrObs(a *auxBuilder, oracle int, raw []byte) JAttrObs {
-	out := JAttrObs{Oracle: oracle, Raw: hx(raw)}
+	out := JAttrObs{Oracle: oracle, Raw: hx(raw), Len: len(raw)}
 	var o ocr2keepersv3.AutomationObservation
 	if err := gojson.Unmarshal(raw, &o); err != nil {
 		return out
@@ -170,6 +173,8 @@ type roundOpts struct {
 	proposalsMax int
 	bigHeights   bool // block numbers around 2^63 or just below 2^64
 	jumps        bool // the chain sometimes advances by hundreds or thousands of blocks between rounds
+	longTails    bool // Byzantine kind 13: long performable lists whose only invalid entry sits at the end
+	atLimit      int  // per mille of the rounds in which one honest observation is exactly at / one below / one above the size limit
 }
 
 func newRoundWorld(r *Rng, opts roundOpts) *roundWorld {
@@ -357,10 +362,73 @@ func collisionTriple(base ocr2keepers.CheckResult) [3]ocr2keepers.CheckResult {
 	return [3]ocr2keepers.CheckResult{a, b, c}
 }
 
+// invalidVariant returns a copy of a valid result that breaks exactly one rule of validateCheckResult, and the rule's name.
+func invalidVariant(r *Rng, res ocr2keepers.CheckResult) (ocr2keepers.CheckResult, string) {
+	v := res
+	over := new(big.Int).Lsh(big.NewInt(1), 256) // 2^256: one above the uint256 range
+	switch r.Intn(14) {
+	case 0:
+		v.PipelineExecutionState = 1
+		return v, "execution-state"
+	case 1:
+		v.Retryable = true
+		return v, "retryable"
+	case 2:
+		v.Eligible = false
+		return v, "ineligible"
+	case 3:
+		v.IneligibilityReason = 1
+		return v, "ineligibility-reason"
+	case 4: // the trigger's extension does not fit the upkeep's type (work id recomputed: only the type rule is broken)
+		if v.Trigger.LogTriggerExtension != nil {
+			v.Trigger.LogTriggerExtension = nil
+		} else {
+			v.Trigger.LogTriggerExtension = &ocr2keepers.LogTriggerExtension{TxHash: genHash(r), Index: 1, BlockHash: genHash(r), BlockNumber: v.Trigger.BlockNumber}
+		}
+		v.WorkID = wg(v.UpkeepID, v.Trigger)
+		if utg(v.UpkeepID) != types.LogTrigger && utg(v.UpkeepID) != types.ConditionTrigger {
+			v.WorkID = "00" // no type rule for other upkeep types: break the work id instead
+			return v, "work-id"
+		}
+		return v, "trigger-extension"
+	case 5:
+		v.WorkID = v.WorkID + "0"
+		return v, "work-id"
+	case 6: // another upkeep's result under this work id
+		v.UpkeepID[31] ^= 1
+		return v, "work-id"
+	case 7:
+		v.GasAllocated = 0
+		return v, "gas-zero"
+	case 8:
+		v.FastGasWei = nil
+		return v, "fast-gas-absent"
+	case 9:
+		v.FastGasWei = big.NewInt(-1)
+		return v, "fast-gas-range"
+	case 10:
+		v.FastGasWei = over
+		return v, "fast-gas-range"
+	case 11:
+		v.LinkNative = nil
+		return v, "link-absent"
+	case 12:
+		v.LinkNative = big.NewInt(-1)
+		return v, "link-range"
+	default:
+		v.LinkNative = over
+		return v, "link-range"
+	}
+}
+
 type genObs struct {
 	oracle int
 	obs    ocr2keepersv3.AutomationObservation
 	raw    []byte // if non-nil, send these bytes instead of obs.Encode()
+	// padTo > 0: the message is brought to exactly padTo bytes — padStyle 0: insignificant white space, 1: filler
+	// results carrying perform data (the way a busy node fills its observation)
+	padTo    int
+	padStyle int
 }
 
 // genRoundObservations builds the attributed observations of one round.
@@ -517,6 +585,9 @@ func (w *roundWorld) genRoundObservations(em *Emitter) []genObs {
 	for i := 0; i < nByz; i++ {
 		o := &obs[i].obs
 		kind := r.Intn(13)
+		if w.opts.longTails && r.Chance(13) {
+			kind = 13
+		}
 		em.Hit(fmt.Sprintf("byz-kind-%d", kind))
 		switch kind {
 		case 0: // near-duplicates of honest results differing in exactly one field
@@ -663,6 +734,41 @@ func (w *roundWorld) genRoundObservations(em *Emitter) []genObs {
 					o.UpkeepProposals = append(o.UpkeepProposals, ocr2keepers.CoordinatedBlockProposal{UpkeepID: uid, Trigger: res.Trigger, WorkID: res.WorkID})
 				}
 			}
+		case 13: // a LONG list (64–100 results) whose ONLY invalid entry sits at the very end or among the last few
+			// positions; everything before it is valid and votes for the whole pool, so the observation's vote would
+			// lift results with f honest votes over the threshold — if it were counted
+			{
+				for _, res := range w.results {
+					dup := false
+					for _, e := range o.Performable {
+						dup = dup || e.WorkID == res.WorkID
+					}
+					if !dup && len(o.Performable) < 90 {
+						o.Performable = append(o.Performable, res)
+					}
+				}
+				total := r.Range(64, 100)
+				if r.Chance(30) {
+					total = []int{100, 99, 97, 95, 71, 65}[r.Intn(6)]
+				}
+				if total <= len(o.Performable) {
+					total = len(o.Performable) + 1
+				}
+				for len(o.Performable) < total {
+					o.Performable = append(o.Performable, genResult(r, genUpkeepID(r, r.Bool()), w.height))
+				}
+				pos := total - 1
+				if r.Chance(50) {
+					pos = total - 1 - r.Intn(7) // one of the last seven
+				}
+				if pos < 0 {
+					pos = 0
+				}
+				bad, vk := invalidVariant(r, o.Performable[pos])
+				o.Performable[pos] = bad
+				em.Hit("byz-tail-invalid:" + vk)
+				em.Hit(fmt.Sprintf("byz-tail-len%%8=%d", total%8))
+			}
 		case 8: // proposal flood: too many, duplicates, wrong work id
 			for k := 0; k < r.Range(1, 14); k++ {
 				uid := genUpkeepID(r, r.Bool())
@@ -673,6 +779,25 @@ func (w *roundWorld) genRoundObservations(em *Emitter) []genObs {
 				}
 				o.UpkeepProposals = append(o.UpkeepProposals, p)
 			}
+		}
+	}
+	// --- message size: one honest observation that carries votes is exactly at, one below or one above the maximum
+	// length the plugin advertises to libocr (a busy node fills its observation up to and including the limit; one
+	// byte more and libocr never hands the message over)
+	if w.opts.atLimit > 0 && r.Intn(1000) < w.opts.atLimit {
+		var cand []int
+		for k := range honest {
+			if len(honest[k].obs.Performable) > 0 {
+				cand = append(cand, k)
+			}
+		}
+		if len(cand) > 0 {
+			g := &honest[cand[r.Intn(len(cand))]]
+			g.padTo = ocr2keepersv3.MaxObservationLength + []int{0, 0, -1, 1}[r.Intn(4)]
+			if r.Chance(30) {
+				g.padStyle = 1
+			}
+			em.Hit(fmt.Sprintf("obs-size=max%+d,style=%d", g.padTo-ocr2keepersv3.MaxObservationLength, g.padStyle))
 		}
 	}
 	// shuffle the delivery order of the attributed observations
@@ -705,7 +830,78 @@ func encodeObs(g genObs) []byte {
 	if err != nil {
 		panic(err)
 	}
+	if g.padTo > 0 {
+		if p := padObservation(g.obs, g.padTo, g.padStyle); p != nil {
+			return p
+		}
+	}
 	return spaced(b)
+}
+
+// padObservation returns an encoding of exactly `target` bytes of an observation that lists everything o lists (nil
+// when o's own encoding is already longer). Style 0 adds insignificant white space — the same JSON value, so the same
+// observation; style 1 appends valid filler results of other upkeeps whose perform data (and, for the last few bytes,
+// the digits of a link price) take up the room, the way a node under load fills its observation.
+func padObservation(o ocr2keepersv3.AutomationObservation, target, style int) []byte {
+	b := must(o.Encode())
+	if len(b) > target {
+		return nil
+	}
+	h := fnv.New64a()
+	h.Write(b)
+	r := NewRng(h.Sum64())
+	if style == 1 && len(o.Performable) < ocr2keepersv3.ObservationPerformablesLimit {
+		nf := ocr2keepersv3.ObservationPerformablesLimit - len(o.Performable)
+		if nf > 80 {
+			nf = 80
+		}
+		o2 := o
+		o2.Performable = append([]ocr2keepers.CheckResult{}, o.Performable...)
+		first := len(o2.Performable)
+		for k := 0; k < nf; k++ {
+			f := genResult(r, genUpkeepID(r, k%2 == 0), 1+uint64(r.Intn(1000)))
+			f.PerformData = []byte{1, 2, 3} // 3 bytes = 4 base64 characters, no padding characters
+			f.LinkNative = big.NewInt(7)    // one digit
+			o2.Performable = append(o2.Performable, f)
+		}
+		need := target - len(must(o2.Encode()))
+		if need >= 0 {
+			groups, rest := need/4, need%4 // 3 more bytes of perform data = 4 more characters; the rest: digits
+			for k := 0; k < nf; k++ {
+				g := groups / nf
+				if k < groups%nf {
+					g++
+				}
+				o2.Performable[first+k].PerformData = r.Bytes(3 + 3*g)
+			}
+			o2.Performable[first].LinkNative = new(big.Int).Exp(big.NewInt(10), big.NewInt(int64(rest)), nil) // 1+rest digits
+			p := must(o2.Encode())
+			if len(p) != target {
+				panic(fmt.Sprintf("padObservation: got %d bytes, wanted %d", len(p), target))
+			}
+			return p
+		}
+	}
+	// white space: before the value, after the opening brace, before the closing brace and after the value
+	ws := make([]byte, target-len(b))
+	for i := range ws {
+		ws[i] = " \t\n\r"[r.Intn(4)]
+	}
+	c1, c2, c3 := 0, 0, 0
+	if len(ws) > 0 {
+		c1 = r.Intn(len(ws) + 1)
+		c2 = c1 + r.Intn(len(ws)-c1+1)
+		c3 = c2 + r.Intn(len(ws)-c2+1)
+	}
+	var out []byte
+	out = append(out, ws[:c1]...)
+	out = append(out, b[0])
+	out = append(out, ws[c1:c2]...)
+	out = append(out, b[1:len(b)-1]...)
+	out = append(out, ws[c2:c3]...)
+	out = append(out, b[len(b)-1])
+	out = append(out, ws[c3:]...)
+	return out
 }
 
 // spaced re-renders about one message in eight with insignificant white space (another encoder, or a peer that wants
@@ -797,13 +993,74 @@ func badPrevVariant(r *Rng, in JRound, prev *ocr2keepersv3.AutomationOutcome) (J
 	return out, true
 }
 
-// runOutcome calls the real Outcome on a node.
-func runOutcome(node *Node, in JRound) (JRoundImpl, []byte) {
+// delivered plays libocr's part for the observations of a round: a message longer than the MaxObservationLength the
+// plugin advertised when it was created never reaches the plugin; everything else is handed over as it is.
+func delivered(node *Node, in JRound) []ocr2plustypes.AttributedObservation {
 	var aos []ocr2plustypes.AttributedObservation
 	for _, o := range in.Obs {
-		aos = append(aos, ocr2plustypes.AttributedObservation{Observation: unhx(o.Raw), Observer: commontypes.OracleID(o.Oracle)})
+		raw := unhx(o.Raw)
+		if len(raw) > node.Info.Limits.MaxObservationLength {
+			continue
+		}
+		aos = append(aos, ocr2plustypes.AttributedObservation{Observation: raw, Observer: commontypes.OracleID(o.Oracle)})
 	}
+	return aos
+}
+
+// inFlightShare selects the units of work a node is made to have in flight before a round is evaluated: about a third
+// of what the round's observations list, by a hash of the work id (so every instance and every evaluation agree).
+func inFlightShare(workID string, salt uint32) bool {
+	h := fnv.New32a()
+	h.Write([]byte(workID))
+	return (h.Sum32()+salt)%3 == 0
+}
+
+// inFlightSalt: instances that are to hold DIFFERENT in-flight work get different salts (C02); default 0
+var inFlightSalt = map[*Node]uint32{}
+
+// inFlightDone: the sequence numbers for which makeInFlight has already run on a node (accepting twice changes nothing)
+var inFlightDone = map[*Node]map[uint64]bool{}
+
+// makeInFlight gives the node's coordinator in-flight state for work that the round's observations still report: the
+// node accepted an attested report carrying it in an earlier round (nodes are never in step — the others have not seen
+// that report yet, or a conditional upkeep was checked again at a newer block). What the NETWORK agrees on in this
+// round is no business of that state.
+func makeInFlight(node *Node, in JRound) int {
+	if inFlightDone[node][in.Seq] {
+		return 0
+	}
+	if inFlightDone[node] == nil {
+		inFlightDone[node] = map[uint64]bool{}
+	}
+	inFlightDone[node][in.Seq] = true
+	seen := map[string]bool{}
+	k := 0
+	for _, o := range in.Obs {
+		if o.O == nil {
+			continue
+		}
+		for _, res := range fromJCRs(o.O.Perf) {
+			if seen[res.WorkID] || !inFlightShare(res.WorkID, inFlightSalt[node]) {
+				continue
+			}
+			seen[res.WorkID] = true
+			rep, err := node.Enc.Encode(res)
+			if err != nil {
+				continue
+			}
+			node.Plugin.ShouldAcceptAttestedReport(context.Background(), in.Seq, ocr3types.ReportWithInfo[pluginInfo]{Report: rep})
+			k++
+		}
+	}
+	node.Enc.Take()
+	return k
+}
+
+// runOutcome calls the real Outcome on a node.
+func runOutcome(node *Node, in JRound) (JRoundImpl, []byte) {
+	aos := delivered(node, in)
 	prevBytes := prevBytesOf(in)
+	makeInFlight(node, in)
 	snap := make([][]byte, len(aos))
 	for k := range aos {
 		snap[k] = append([]byte(nil), aos[k].Observation...)
@@ -853,6 +1110,18 @@ func runOutcome(node *Node, in JRound) (JRoundImpl, []byte) {
 	return impl, raw
 }
 
+// withFreshNode is withNode on a factory that has built nothing before (a restarted process, a late joiner).
+func withFreshNode(t *testing.T, o NodeOpts, fn func(n *Node)) {
+	o.Decoy = nil
+	node := NewNode(t, o)
+	time.Sleep(1500 * time.Millisecond)
+	fn(node)
+	node.Close()
+	delete(inFlightSalt, node)
+	delete(inFlightDone, node)
+	time.Sleep(11 * time.Second)
+}
+
 // withNode runs fn with a started node inside the current bubble and closes it afterwards.
 func withNode(t *testing.T, o NodeOpts, fn func(n *Node)) {
 	if o.Decoy == nil {
@@ -867,7 +1136,61 @@ func withNode(t *testing.T, o NodeOpts, fn func(n *Node)) {
 	time.Sleep(1500 * time.Millisecond)
 	fn(node)
 	node.Close()
+	delete(inFlightSalt, node)
+	delete(inFlightDone, node)
 	time.Sleep(11 * time.Second)
+}
+
+// genOffchainDoc builds a PARTIAL off-chain configuration document: every field is, independently, absent, null, zero,
+// negative (signed fields) or set; absent / null / non-positive values get the documented defaults. The order of the
+// members is shuffled.
+func genOffchainDoc(r *Rng) []byte {
+	var parts []string
+	member := func(key string, signed bool, val func() string) {
+		switch r.Intn(7) {
+		case 0, 1: // absent
+		case 2:
+			parts = append(parts, fmt.Sprintf("%q:null", key))
+		case 3:
+			parts = append(parts, fmt.Sprintf("%q:0", key))
+		case 4:
+			if signed {
+				parts = append(parts, fmt.Sprintf("%q:-%d", key, r.Range(1, 9)))
+			}
+		default:
+			parts = append(parts, fmt.Sprintf("%q:%s", key, val()))
+		}
+	}
+	member("maxUpkeepBatchSize", true, func() string { return fmt.Sprint(r.Range(1, 12)) })
+	member("gasLimitPerReport", false, func() string { return fmt.Sprint(r.Range(100_000, 20_000_000)) })
+	member("gasOverheadPerUpkeep", false, func() string { return fmt.Sprint(r.Range(1, 400_000)) })
+	member("performLockoutWindow", true, func() string { return fmt.Sprint(r.Range(600_000, 3_600_000)) })
+	member("minConfirmations", true, func() string { return fmt.Sprint(r.Range(1, 3)) })
+	member("targetInRounds", true, func() string { return fmt.Sprint(r.Range(1, 4)) })
+	switch r.Intn(4) {
+	case 0:
+		parts = append(parts, `"targetProbability":"0.5"`)
+	case 1:
+		parts = append(parts, `"targetProbability":""`)
+	case 2:
+		parts = append(parts, `"targetProbability":"0.99999"`)
+	}
+	switch r.Intn(4) {
+	case 0:
+		parts = append(parts, fmt.Sprintf(`"logProviderConfig":{"blockRate":%d,"logLimit":%d}`, r.Range(1, 4), r.Range(1, 20)))
+	case 1:
+		parts = append(parts, fmt.Sprintf(`"logProviderConfig":{"logLimit":%d}`, r.Range(1, 20)))
+	case 2:
+		parts = append(parts, `"logProviderConfig":{}`)
+	}
+	doc := "{"
+	for i, k := range r.Perm(len(parts)) {
+		if i > 0 {
+			doc += ","
+		}
+		doc += parts[k]
+	}
+	return []byte(doc + "}")
 }
 
 func seqBytes(seq uint64) []byte {
